@@ -96,12 +96,16 @@ def launch (d : Doc V E) (cfg : Cfg) (s : State V E) (i : Nat) (p : Prog V E) : 
   | some t => step d cfg { s with threads := s.threads.set i { t with todo := [p] } } i
   | none => none
 
+/-- what the program inner thread `i` has just completed returned -/
+def lastOut (s : State V E) (i : Nat) : Res V E :=
+  match s.threads[i]? with
+  | some t => (t.out.getLast?).getD .oof
+  | none => .oof
+
 /-- after an inner step of thread `i` that is running `p` (for cell `c?`): still inside, or the program returned -/
 def settle (s : LState V E) (i : Nat) (lt : LThread V E) (c : Option Nat) (p : Prog V E) (inner' : State V E) : LState V E :=
   if innerIdle inner' i then
-    let res : Res V E := match inner'.threads[i]? with
-      | some t => (t.out.getLast?).getD .oof
-      | none => .oof
+    let res : Res V E := lastOut inner' i
     match c with
     | some c => { s with inner := inner', lthreads := s.lthreads.set i { lt with lctl := .storing c res } }
     | none =>
